@@ -1,6 +1,7 @@
 """C10 — Barycentric and dual-grid spaces represent the functions they claim to."""
 
 import ast
+import re
 from fractions import Fraction as F
 
 from .. import bary, roles, shapesets as S
@@ -33,6 +34,7 @@ SS = "bempp_cl/api/space/scalar_spaces.py"
 DS = "bempp_cl/api/space/scalar_dual_spaces.py"
 MS = "bempp_cl/api/space/maxwell_spaces.py"
 SP = "bempp_cl/api/space/space.py"
+GRID_ = "bempp_cl/api/grid/grid.py"
 
 
 def _table_arg(fn, callee, pos, what):
@@ -463,6 +465,95 @@ def compat(ctx):
                 "dof tables are read before / without return_compatible_representation (lines %s)" % (uses_self or [first_use]))
 
 
+def bc_reference_edge(ctx, B):
+    """Buffa-Christiansen functions: the four barycentric cells on the reference edge and the barycentric edge their
+    coefficients sit on, against the refinement table and _EDGE_LOCAL."""
+    r = ctx.rule("BC-REF-EDGE", "BC reference edge: cells 6*T + 2*v and 6*T + 2*v + 1 are the two sub-triangles along the coarse edge leaving local vertex v (first contains V_v, second V_{v+1}); "
+                 "the coefficients sit on their common interior edge (midpoint, centre), with opposite signs inside each pair and mirrored between the upper and the lower pair", 7)
+    el = bary.edge_local(ctx)
+    mm = ctx.repo.mod(MS)
+    fn = mm.fn("_compute_bc_space_data")
+    defs = roles.Defs(fn)
+    calls = [c for c in ast.walk(fn) if isinstance(c, ast.Call) and unparse(c.func) == "_get_coefficients_reference_edge"]
+    if len(calls) != 1 or len(calls[0].args) != 8:
+        raise AnalysisError("_compute_bc_space_data: call of _get_coefficients_reference_edge(…8 arguments…) not found")
+    g = ctx.repo.mod(GRID_).fn("_get_coefficients_reference_edge")
+    gp = [a.arg for a in g.args.args]
+    # the two coarse cells and the two local vertex numbers: names the four cell numbers are affine in
+    forms = []
+    for a in calls[0].args[4:8]:
+        names = {n.id for n in ast.walk(_resolve_expr(a, defs)) if isinstance(n, ast.Name)}
+        forms.append((_affine(a, defs, names), names))
+    ok_forms = all(f is not None and sorted(f.values()) in ([F(2), F(6)], [F(1), F(2), F(6)]) for f, _ in forms)
+    r.check(ok_forms, "cell numbers are 6*T + 2*v (+1)", MS, fn.name, calls[0].lineno, "bc reference cells %s" % [dict((str(k), str(v)) for k, v in (f or {}).items()) for f, _ in forms],
+            "the four barycentric cells passed to _get_coefficients_reference_edge are not of the form 6*coarse_element + 2*local_vertex (+1)")
+    if not ok_forms:
+        return
+    offs = [int(f.get(1, 0)) for f, _ in forms]  # (upper-, upper+, lower-, lower+)
+    cells = []
+    for f, _ in forms:
+        T = next(k for k, v in f.items() if v == 6)
+        v = next(k for k, val in f.items() if val == 2)
+        cells.append((T, v))
+    r.check(offs == [0, 1, 0, 1] and cells[0] == cells[1] and cells[2] == cells[3] and cells[0] != cells[2], "minus/plus cells of the upper and the lower coarse element", MS, fn.name, calls[0].lineno,
+            "bc reference cell offsets %s" % offs, "expected (6U+2a, 6U+2a+1, 6L+2b, 6L+2b+1); got offsets %s over %s" % (offs, cells))
+    # the barycentric table: sub-triangles 2v, 2v+1 lie along the coarse edge from V_v to V_{v+1}
+    for v in range(3):
+        e = next(k for k in range(3) if set(el[k]) == {v, (v + 1) % 3})
+        j0, j1 = 2 * v, 2 * v + 1
+        ok = ("V%d" % v) in B[j0] and ("V%d" % ((v + 1) % 3)) in B[j1] and ("M%d" % e) in B[j0] and ("M%d" % e) in B[j1] and "C" in B[j0] and "C" in B[j1]
+        r.check(ok, "sub-triangles %d,%d along the edge V%d-V%d" % (j0, j1, v, (v + 1) % 3), GRID_, "_create_barycentric_connectivity_array", 0, "bc cells along edge %d" % v,
+                "sub-triangles %d %s and %d %s are not the two halves along the coarse edge from V%d to V%d (midpoint M%d)" % (j0, B[j0], j1, B[j1], v, (v + 1) % 3, e))
+    # which local dof / local edge of those cells carries the coefficient
+    gd = roles.Defs(g)
+    S = roles.stores(g.body, gd, lv=False)
+    apps = {}
+    for s_ in S:
+        if s_.op == "call" and isinstance(s_.vnode.func, ast.Attribute) and s_.vnode.func.attr == "append" and isinstance(s_.vnode.func.value, ast.Name):
+            apps.setdefault(s_.vnode.func.value.id, []).append(s_.vnode.args[0])
+    rets = [s_ for s_ in g.body if isinstance(s_, ast.Return)]
+    if len(rets) != 1 or not isinstance(rets[0].value, ast.Tuple) or len(rets[0].value.elts) != 3:
+        raise AnalysisError("_get_coefficients_reference_edge: does not return (values, bary dofs, coarse dofs)")
+    VAL, BD, CD = (unparse(e) for e in rets[0].value.elts)
+    cellp = gp[4:8]
+    dofs = [roles.canon(a, gd).replace(" ", "") for a in apps.get(BD, [])]
+    loc = []
+    for d, cp in zip(dofs, cellp):
+        m_ = re.fullmatch(re.escape(gp[2]) + r"\[\(" + re.escape(cp) + r",(\d)\)\]", d)
+        loc.append(int(m_.group(1)) if m_ else None)
+    shared_ok = len(loc) == 4 and all(l is not None for l in loc)
+    if shared_ok:
+        for v in range(3):
+            e = next(k for k in range(3) if set(el[k]) == {v, (v + 1) % 3})
+            for j, l in ((2 * v, loc[0]), (2 * v + 1, loc[1])):
+                a, b = el[l]
+                shared_ok = shared_ok and {B[j][a], B[j][b]} == {"M%d" % e, "C"}
+    r.check(shared_ok, "coefficients sit on the interior edge (midpoint, centre) shared by the two halves", GRID_, g.name, g.lineno, "bc reference edge local dofs %s" % loc,
+            "barycentric dofs %s: the local edge used in the minus/plus cells is not their common edge (M_e, C)" % dofs)
+    # edge lengths of that same local edge, signs (+,-,-,+) and magnitude 1/(2 L)
+    vals = [roles.canon(a, gd, commutative_mult=True).replace(" ", "") for a in apps.get(VAL, [])]
+    Lu = roles.expect("EL[BG.data().element_edges[K, UM]]", gd, g.body[-1].lineno, lv=False, EL=gp[0], BG=gp[1], K=str(loc[0] if shared_ok else 2), UM=gp[4])
+    Ll = roles.expect("EL[BG.data().element_edges[K, LM]]", gd, g.body[-1].lineno, lv=False, EL=gp[0], BG=gp[1], K=str(loc[2] if shared_ok else 2), LM=gp[6])
+    w = lambda sign, L: ("(%s/(2*%s))" % ("1.0" if sign > 0 else "USub(1.0)", L))
+    want = [w(+1, Lu), w(-1, Lu), w(-1, Ll), w(+1, Ll)]
+    r.check(vals == want and [roles.canon(a, gd) for a in apps.get(CD, [])] == [gp[3]] * 4, "values +-1/(2 L) with L the length of that edge; signs (+,-) upper, (-,+) lower", GRID_, g.name, g.lineno, "bc reference edge values",
+            "values are %s, expected %s" % (vals, want))
+
+
+def _resolve_expr(node, defs):
+    """Copy of an index expression with single-definition locals inlined (for collecting the names it depends on)."""
+    import copy
+
+    class T(ast.NodeTransformer):
+        def visit_Name(self, n):
+            d = defs.lookup(n.id, getattr(n, "lineno", None))
+            if d is not None and d[0] == "expr" and isinstance(d[1], (ast.BinOp, ast.Constant, ast.Name)):
+                return self.visit(copy.deepcopy(d[1]))
+            return n
+
+    return T().visit(copy.deepcopy(node))
+
+
 def run(ctx):
     B, ln = bary.barycentric_table(ctx)
     pts = bary.ref_points(ctx)
@@ -471,4 +562,5 @@ def run(ctx):
     dual0(ctx, B)
     dual1(ctx, B)
     rwg_tables(ctx, B, pts)
+    bc_reference_edge(ctx, B)
     compat(ctx)
